@@ -919,12 +919,15 @@ func runScenario(t *tools, name string, sc scenario, drv *Nadrv) *caseResult {
 					}
 				}
 			}
-			if r.Exit == "killed" {
-				// remember in which window a stale `next` was left
-				if o.Next != nil && o.Next.HeadIsR {
-					staleBy = classifyKill(r)
+			// remember in which window a killed run (this one or a nested one) left a `next`
+			// whose HEAD equals the remote head
+			if o.Next != nil && o.Next.HeadIsR {
+				for _, kr := range append([]*runInfo{r}, r.Nested...) {
+					if w := classifyKill(kr); w == "clone_commit" || w == "push_promote" {
+						staleBy = w
+					}
 				}
-			} else if o.Next == nil || !o.Next.HeadIsR {
+			} else {
 				staleBy = ""
 			}
 			if r.Wrapper != "" && sc.Wrapper && strings.Contains(r.Wrapper, "Current policy is") {
